@@ -487,19 +487,19 @@ package utreexo
 //@   modifies a
 //@   ensures len(res) <= len(a)
 //@   loop 1: invariant 0 <= i && i <= len(a) && 0 <= bIdx && bIdx <= len(b) && len(a) <= old(len(a))
-//@   loop 1: decreases (len(a) - i) + (len(b) - bIdx)
+//@   loop 1: decreases len(b) - bIdx, len(a) - i
 
 //@ func subtractSortedHashAndPos(a hashAndPos, b []E, cmp func(uint64, E) int) (res hashAndPos)
 //@   requires len(a.positions) == len(a.hashes)
 //@   ensures len(res.positions) == len(res.hashes) && len(res.positions) <= len(a.positions)
 //@   loop 1: invariant 0 <= i && i <= len(a.positions) && 0 <= bIdx && bIdx <= len(b) && len(a.positions) == len(a.hashes) && len(a.positions) <= old(len(a.positions))
-//@   loop 1: decreases (len(a.positions) - i) + (len(b) - bIdx)
+//@   loop 1: decreases len(b) - bIdx, len(a.positions) - i
 
 //@ func getHashAndPosSubset(a hashAndPos, b []uint64) (res hashAndPos)
 //@   requires len(a.positions) == len(a.hashes)
 //@   ensures len(res.positions) == len(res.hashes)
 //@   loop 1: invariant 0 <= i && i <= len(a.positions) && 0 <= bIdx && bIdx <= len(b) && len(c.positions) == len(c.hashes)
-//@   loop 1: decreases (len(a.positions) - i) + (len(b) - bIdx)
+//@   loop 1: decreases len(b) - bIdx, len(a.positions) - i
 
 //@ func insertInOrder(dels []uint64, el uint64) (res []uint64)
 //@   modifies dels
@@ -513,6 +513,7 @@ package utreexo
 
 //@ func maybeRemap(numLeaves uint64, numAdds uint64, hnp hashAndPos) (res hashAndPos)
 //@   ensures len(res.positions) == len(hnp.positions) && len(res.hashes) == len(hnp.hashes)
+//@   loop 1: invariant len(hnp.positions) == iterlen_1 && len(hnp.positions) == old(len(hnp.positions)) && len(hnp.hashes) == old(len(hnp.hashes))
 
 //@ func pruneEdges(hnp hashAndPos, numAdds uint64, numLeaves uint64, forestRows uint8, prevForestRows uint8) (res hashAndPos, err error)
 //@   requires len(hnp.positions) == len(hnp.hashes)
